@@ -150,6 +150,10 @@ func caseCLI(t *testing.T, tp *simrt.Tape, c *Ctx) (res Result) {
 		}
 		P := 1 + tp.Draw("cli.p", 6)
 		C := 1 + tp.Draw("cli.c", 60)
+		if tp.Draw("cli.pbig", 4) == 0 {
+			P = M/2 + tp.Draw("cli.p.big", 2*M) // around and above the core size
+			C = 100 + tp.Draw("cli.c.big", 700)
+		}
 		is88 = tp.Draw("cli.88", 3) == 0
 		rc = ref.Config{M: uint64(M), P: uint64(P), C: uint64(C), R: uint64(M), W: uint64(M)}
 		fl := [][]string{{"-s", strconv.Itoa(M)}, {"-p", strconv.Itoa(P)}, {"-c", strconv.Itoa(C)}, {"-l", strconv.Itoa(L)}}
@@ -166,11 +170,63 @@ func caseCLI(t *testing.T, tp *simrt.Tape, c *Ctx) (res Result) {
 	var ws []ref.Warrior
 	var files []string
 	maxLen := min(L, 6)
+	setFieldHints(rc.M, rc.R, rc.W)
+	template := L >= 4 && tp.Draw("cli.template", 5) == 0
 	for i := 0; i < nw; i++ {
 		w := genLoadWarrior(tp, rc.M, is88, maxLen)
+		if template {
+			// classic shapes whose outcome depends on process counts and timing:
+			// a process hoarder and a stepping bomber
+			if i == 0 {
+				w = ref.Warrior{Code: []ref.Ins{{Op: ref.SPL, Mod: ref.MB, AMode: ref.Direct, A: 0, BMode: ref.Direct, B: 0}, {Op: ref.JMP, Mod: ref.MB, AMode: ref.Direct, A: rc.M - 1, BMode: ref.Direct, B: 0}}}
+			} else {
+				step := uint64(1 + tp.Draw("cli.tpl.step", 7))
+				w = ref.Warrior{Code: []ref.Ins{
+					{Op: ref.ADD, Mod: ref.MAB, AMode: ref.Immediate, A: step, BMode: ref.Direct, B: 3},
+					{Op: ref.MOV, Mod: ref.MI, AMode: ref.Direct, A: 2, BMode: ref.BIndirect, B: 2},
+					{Op: ref.JMP, Mod: ref.MB, AMode: ref.Direct, A: rc.M - 2, BMode: ref.Direct, B: 0},
+					{Op: ref.DAT, Mod: ref.MF, AMode: ref.Immediate, A: 0, BMode: ref.Immediate, B: 0}}}
+			}
+		}
 		ws = append(ws, w)
 		name := fmt.Sprintf("w%d.red", i+1)
-		text := strings.Join(ref.Canon(w, rc.M, is88, nil), "\n") + "\n"
+		lines := ref.Canon(w, rc.M, is88, nil)
+		// decoration that does not change the meaning: an unused EQU, and a
+		// label that one operand is written relative to. Names come from a
+		// tiny pool, so the two files of one invocation clash on purpose
+		// (EQU in one file, label of the same name in the other).
+		if tp.Draw("cli.decorate", 2) == 0 && len(w.Code) > 0 {
+			pool := []string{"tgt", "x", "step"}
+			nm := pool[tp.Draw("cli.deco.name", len(pool))]
+			first := 0
+			if !is88 {
+				first = 1 // line 0 is ORG
+			}
+			if tp.Draw("cli.deco.kind", 2) == 0 {
+				lines = append([]string{nm + " equ " + fmt.Sprint(1+tp.Draw("cli.deco.val", 9))}, lines...)
+			} else {
+				k := tp.Draw("cli.deco.label", len(w.Code)) // labelled instruction
+				j := tp.Draw("cli.deco.user", len(w.Code))  // instruction whose A operand is written relative to it
+				c := w.Code[j]
+				rel := int64(k - j)
+				v := int64(c.A) - rel
+				op := c.Op.String()
+				if !is88 {
+					op += "." + c.Mod.String()
+				}
+				lines[first+j] = fmt.Sprintf("%s %s %s+%d, %s %d", op, c.AMode, nm, v, c.BMode, c.B)
+				if v < 0 {
+					lines[first+j] = fmt.Sprintf("%s %s %s-%d, %s %d", op, c.AMode, nm, -v, c.BMode, c.B)
+				}
+				if k == j {
+					lines[first+j] = nm + " " + lines[first+j]
+				} else {
+					lines[first+k] = nm + " " + lines[first+k]
+				}
+			}
+			res.stat("probe.decorated-source", 1)
+		}
+		text := strings.Join(lines, "\n") + "\n"
 		must(os.WriteFile(filepath.Join(dir, name), []byte(text), 0o644))
 		files = append(files, name)
 	}
